@@ -149,6 +149,12 @@ func sanitizeExpressionsInScript(src string) string {
 		}
 		e += s + 2 // 2 is offset for len("}}")
 
+		// }} may appear in a string literal like ${{ '}}' }}. Find the end of the placeholder by lexing the
+		// expression as the expression checker does. When it is not lexed successfully, the first }} is used.
+		if _, off, err := LexExpression(src[s+3:]); err == nil { // 3 is offset for len("${{")
+			e = s + 3 + off
+		}
+
 		// Note: If ${{ ... }} includes newline, line and column reported by shellcheck will be
 		// shifted.
 		b.WriteString(src[:s])
